@@ -792,12 +792,38 @@ func (env *Env) evalCall(e *Expr) CV {
 		// content of the byte object behind x is what it was in the old state
 		v := arg(0).V.(SliceV)
 		return CV{V: Scalar{tb.Eq(tb.Select(env.cur.BH, v.Base), tb.Select(env.old.BH, v.Base))}, T: boolT}
-	case "rawalloc":
-		// rawalloc(p, n): every byte of [p,p+n) is allocated raw memory
+	case "zeroed":
+		// zeroed(p, n): every byte of [p,p+n) is zero
 		a := r.scalar(arg(0).V)
 		n := argInt(1)
 		k := tb.BoundVar("k", BV64)
-		return CV{V: Scalar{tb.Forall([]*Term{k}, tb.Implies(tb.ULt(tb.Sub(k, a), n), tb.Select(env.cur.RA, k)))}, T: boolT}
+		return CV{V: Scalar{tb.Forall([]*Term{k}, tb.Implies(tb.ULt(tb.Sub(k, a), n), tb.Eq(tb.Select(env.cur.M, k), tb.BVI(8, 0))))}, T: boolT}
+	case "rawfresh":
+		// rawfresh(p, n): no byte of [p,p+n) was allocated in the old state
+		a := r.scalar(arg(0).V)
+		n := argInt(1)
+		old := env.old
+		if old == nil {
+			old = r.rootEntry()
+		}
+		k := tb.BoundVar("k", BV64)
+		return CV{V: Scalar{tb.Forall([]*Term{k}, tb.Implies(tb.ULt(tb.Sub(k, a), n), tb.Not(tb.Select(old.RA, k))))}, T: boolT}
+	case "memframe":
+		// memframe(p, n): raw memory allocated in the old state is unchanged outside [p,p+n)
+		a := r.scalar(arg(0).V)
+		n := argInt(1)
+		k := tb.BoundVar("k", BV64)
+		return CV{V: Scalar{tb.Forall([]*Term{k}, tb.Implies(tb.And(tb.Select(env.old.RA, k), tb.Not(tb.ULt(tb.Sub(k, a), n))), tb.Eq(tb.Select(env.cur.M, k), tb.Select(env.old.M, k))))}, T: boolT}
+	case "rawalloc":
+		// rawalloc(p, n): every byte of [p,p+n) is allocated raw memory, and the range lies in the user address
+		// space without wrapping (p + n <= 2^48)
+		a := r.scalar(arg(0).V)
+		n := argInt(1)
+		k := tb.BoundVar("k", BV64)
+		all := tb.Forall([]*Term{k}, tb.Implies(tb.ULt(tb.Sub(k, a), n), tb.Select(env.cur.RA, k)))
+		lim := tb.BVU(64, 1<<48)
+		sane := tb.Implies(tb.SGt(n, tb.BVI(64, 0)), tb.And(tb.ULt(a, lim), tb.ULt(n, lim), tb.ULe(tb.Add(a, n), lim)))
+		return CV{V: Scalar{tb.And(all, sane)}, T: boolT}
 	case "sext", "zext":
 		x := arg(0)
 		w := int(e.Args[1].Lit.Int64())
